@@ -211,4 +211,35 @@ CHECKS = {
         'assumptions': ['steps are names that the Either object does not define itself (its own accessors and Obj built-ins such as S, A, keys, sum apply to the wrapper by design)',
                         'operator steps are written as method calls (.+(1)); an infix operator applied to an Either is not proxied (built-in operator dispatch does not consult _missing)'],
     },
+    'C01': {
+        'lean_modules': ['Pangaea.Theorems.C01'],
+        'theorem_modules': ['Pangaea.Theorems.C01'],
+        'generated': ['C01'],
+        'theorems': ['Pangaea.C01.builtins_initialised', 'Pangaea.C01.bound_consts_initialised', 'Pangaea.C01.arity_guards',
+                     'Pangaea.C01.valRange_never_panics', 'Pangaea.C01.strRange_never_panics', 'Pangaea.C01.arrIndex_never_panics'],
+        'harness': ['C01', 'C01prog'],
+        'shards': 14,
+        'spec_is_function': True,
+        'rule': 'registry sweep: every property found on the prototype chain of every member of a pool (76 hand-picked values of all built-in types incl. int64 extremes, empty and multi-byte strs, prototypes, bear/new descendants, '
+                'iterators, Either values + every constant bound by NewEnvWithConsts) called with arity 0, with every moderate pool member as single argument (1/6 sampled quick), sampled pairs, keyword arguments; indexing, chains, variable '
+                'calls and calls on every member; program generator (mostly valid, 88% parse) over all constructs with stdin reads, byte-level mutations of generated and of the repository\'s own programs (NUL, invalid UTF-8, '
+                'truncation, unbalanced brackets), and the three entry points RunSource / StartREPL / RunTest. Oracle: recover() sees no Go panic. non-trivial = all calls / programs that parse; distinct by source',
+        'trusted_base': [KERNEL, AX, 'translator /verif/extract (go/ast): built-in object table and arity guards (fails closed: an unguarded index is an obligation failure)', 'recover() in the harness as the observer of panics; Go runtime fatals (stack overflow, OOM, concurrent map access) kill the harness process and are reported as a broken run'],
+        'assumptions': ['PARTIAL: proof only for the generated tables and the indexing component; the rest of the interpreter is explored, not proved', 'programs that exhaust the evaluation fuel (hook) are discarded: the property excludes non-termination and unbounded memory',
+                        'arguments are moderate values so that no built-in is asked for unbounded memory; third-party code (regexp2, dtoa, encoding/json, echo) is not modelled'],
+    },
+    'C06': {
+        'lean_modules': ['Pangaea.Theorems.C06'],
+        'theorem_modules': ['Pangaea.Theorems.C06'],
+        'generated': ['C06'],
+        'theorems': ['Pangaea.C06.step_frozen', 'Pangaea.C06.history_frozen', 'Pangaea.C06.plus_result', 'Pangaea.C06.write_sites_are_the_reviewed_ones'],
+        'harness': ['C06'],
+        'shards': 14,
+        'spec_is_function': False,
+        'rule': 'runtime monitor on the implementation: the registry sweep of C01 run as ONE history in one scope whose pool members and the last 64 results stay referenced; before and after every call a deep fingerprint by Go pointer '
+                'identity (array element pointers, object pair pointers and prototype, map key/value pointers, str/int/float payloads, range bounds) of everything reachable from the scope; any existing value whose fingerprint changes is a violation. '
+                'non-trivial = every call; distinct by source',
+        'trusted_base': [KERNEL, AX, 'translator /verif/extract (go/ast): inventory of in-place write sites compared with the reviewed list in Pangaea/Object/WriteSites.lean', 'the fingerprint function of the harness'],
+        'assumptions': ['the Lean model covers array values over Go slices (append semantics, any growth policy); objects and maps are covered by the write-site inventory and the runtime monitor', 'iterators (next / recur) and variables are the mutable things, by definition of the property'],
+    },
 }
